@@ -4,6 +4,7 @@ package spec
 
 import (
 	"fmt"
+	"strconv"
 	"strings"
 	"unicode"
 	"unicode/utf8"
@@ -133,7 +134,16 @@ func lex(s string) ([]token, error) {
 			if j >= len(s) {
 				return nil, fmt.Errorf("unterminated string at %d", i)
 			}
-			ts = append(ts, token{"str", s[i+1 : j], i})
+			lit := s[i+1 : j]
+			if strings.Contains(lit, "\\") {
+				// escapes mean what they mean in Go ("\n" is a line feed)
+				u, err := strconv.Unquote(`"` + lit + `"`)
+				if err != nil {
+					return nil, fmt.Errorf("string literal at %d: %v", i, err)
+				}
+				lit = u
+			}
+			ts = append(ts, token{"str", lit, i})
 			i = j + 1
 			continue
 		}
